@@ -23,6 +23,9 @@ func (f BooleanInactiveActiveFactoryType) New(v uint8) (BooleanInactiveActive, e
 }
 
 func (f BooleanInactiveActiveFactoryType) NewEnum(v int) (Enum, error) {
+	if v < 0 || v > 255 {
+		return nil, ErrInvalidEnumIdx
+	}
 	return f.New(uint8(v))
 }
 
